@@ -132,6 +132,32 @@ with concurrent.futures.ThreadPoolExecutor(max_workers=nproc) as ex:
         for n in nonlin:
             v.report({"branch": "select.concurrent", "kind": "nonlinearizable", "detail": ""}, {"history": conc.history_of(path, n["h"]), "file": path},
                      what="connections in the same database disagree (history %s not linearizable over d<i>:<key>):\n  %s" % (n["h"], "\n  ".join(conc.history_of(path, n["h"])[:40])))
+# ---- the configured count is what the configuration file says, whatever the file looks like (line order, no newline after
+# the last line, blank lines, Windows line ends are not tried): SELECT accepts exactly 0..N-1
+cfgshape = {"servers": 0, "selects": 0}
+for n_db, conf in ((4, "host 127.0.0.1\nport {port}\nlogdir {dir}\nloglevel panic\nshardnum 16\ndatabases 4"),          # no trailing newline
+                   (3, "databases 3\nhost 127.0.0.1\nport {port}\nlogdir {dir}\nloglevel panic\nshardnum 16\n"),
+                   (5, "host 127.0.0.1\nport {port}\n\nlogdir {dir}\nloglevel panic\ndatabases 5\nshardnum 16"),
+                   (20, "host 127.0.0.1\nport {port}\nlogdir {dir}\nloglevel panic\nshardnum 16\ndatabases 20")):
+    sv = server.Server(conf_text=conf)
+    try:
+        cfgshape["servers"] += 1
+        cc = sv.client(timeout=10.0)
+        cc.cmd("SET", "shape", "db0")
+        bad = None
+        for idx in list(range(0, n_db + 3)) + [15, 16, 19, 20, 21]:
+            r = cc.cmd("SELECT", str(idx), timeout=10.0)
+            cfgshape["selects"] += 1
+            if (r[0] == "+") != (idx < n_db):
+                bad = "SELECT %d -> %r with %d databases configured" % (idx, r, n_db)
+                break
+        cc.close()
+        if bad:
+            v.report({"branch": "select.configured", "kind": "wrong-range", "detail": str(n_db)}, {"redis_conf": conf, "problem": bad},
+                     what="server started from a configuration file with `databases %d` (%s): %s" % (n_db, "no newline after the last line" if not conf.endswith("\n") else "line in the middle", bad))
+    finally:
+        sv.stop()
+cov["configuration_file_shapes"] = cfgshape
 # ---- cluster mode: whatever the node's configuration file says about databases, selection stays per connection and the
 # databases isolated (a cluster node normally has ONE database and rejects SELECT 1; if it accepts it, everything C20 says
 # must hold through the replicated path as well)
